@@ -35,11 +35,11 @@ import (
 
 const (
 	c10MaxTags     = 24
-	c10MaxRegions  = 40
-	c10MaxSections = 32
+	c10MaxRegions  = 600
+	c10MaxSections = 200
 	c10MaxStrtab   = 2048
-	c10MaxRaw      = 1023
-	c10MaxCmd      = 255
+	c10MaxRaw      = 1 << 17
+	c10MaxCmd      = 1 << 17
 	c10MaxPalette  = 16
 )
 
@@ -487,6 +487,22 @@ func (r *c10Reader) u8() byte {
 func (r *c10Reader) u16() uint16 { return uint16(r.u8()) | uint16(r.u8())<<8 }
 func (r *c10Reader) u32() uint32 { return uint32(r.u16()) | uint32(r.u16())<<16 }
 func (r *c10Reader) u64() uint64 { return uint64(r.u32()) | uint64(r.u32())<<32 }
+// count reads a length: one byte, or 255 followed by three bytes for the rare long lists.
+func (r *c10Reader) count(max int) int {
+	n := int(r.u8())
+	if n == 255 {
+		n = int(r.u8()) | int(r.u8())<<8 | int(r.u8())<<16
+	}
+	return n % (max + 1)
+}
+
+func c10AppendCount(b []byte, n int) []byte {
+	if n < 255 {
+		return append(b, byte(n))
+	}
+	return append(b, 255, byte(n), byte(n>>8), byte(n>>16))
+}
+
 func (r *c10Reader) bytes(n int) []byte {
 	out := make([]byte, n)
 	for i := range out {
@@ -502,18 +518,18 @@ func c10FromBytes(data []byte) c10Case {
 	r := &c10Reader{b: data}
 	var c c10Case
 	c.Pad = r.u8()
-	c.StopAt = int(r.u8())
+	c.StopAt = r.count(c10MaxRegions)
 	for len(c.Tags) < c10MaxTags && r.more() {
 		t := c10Tag{Kind: c10Kinds[int(r.u8())%len(c10Kinds)]}
 		switch t.Kind {
 		case "cmdline":
-			t.Cmd = string(r.bytes(int(r.u8())))
+			t.Cmd = string(r.bytes(r.count(c10MaxCmd)))
 		case "mmap":
 			m := &c10Mmap{}
 			m.EntrySize = 24 + 8*uint32(r.u8()%8)
 			m.Version = r.u32()
 			m.Fill = r.u8()
-			n := int(r.u8()) % (c10MaxRegions + 1)
+			n := r.count(c10MaxRegions)
 			for i := 0; i < n; i++ {
 				m.Regions = append(m.Regions, c10Region{A: r.u64(), L: r.u64(), T: r.u32()})
 			}
@@ -530,7 +546,7 @@ func c10FromBytes(data []byte) c10Case {
 			t.Fb = f
 		case "elf":
 			e := &c10Elf{}
-			n := int(r.u8()) % (c10MaxSections + 1)
+			n := r.count(c10MaxSections)
 			e.Shndx = uint32(r.u8())
 			e.Strtab = r.bytes(int(r.u16()) % (c10MaxStrtab + 1))
 			for i := 0; i < n; i++ {
@@ -539,7 +555,7 @@ func c10FromBytes(data []byte) c10Case {
 			t.Elf = e
 		case "raw":
 			t.Type = r.u32()
-			t.Raw = r.bytes(int(r.u16()) % (c10MaxRaw + 1))
+			t.Raw = r.bytes(r.count(c10MaxRaw))
 		}
 		c.Tags = append(c.Tags, t)
 	}
@@ -551,7 +567,7 @@ func c10FromBytes(data []byte) c10Case {
 func c10ToBytes(c c10Case) []byte {
 	var b []byte
 	le := binary.LittleEndian
-	b = append(b, c.Pad, byte(c.StopAt))
+	b = c10AppendCount(append(b, c.Pad), c.StopAt)
 	for _, t := range c.Tags {
 		k := 0
 		for i, name := range c10Kinds {
@@ -562,12 +578,13 @@ func c10ToBytes(c c10Case) []byte {
 		b = append(b, byte(k))
 		switch t.Kind {
 		case "cmdline":
-			b = append(b, byte(len(t.Cmd)))
+			b = c10AppendCount(b, len(t.Cmd))
 			b = append(b, t.Cmd...)
 		case "mmap":
 			b = append(b, byte((t.Mmap.EntrySize-24)/8))
 			b = le.AppendUint32(b, t.Mmap.Version)
-			b = append(b, t.Mmap.Fill, byte(len(t.Mmap.Regions)))
+			b = append(b, t.Mmap.Fill)
+			b = c10AppendCount(b, len(t.Mmap.Regions))
 			for _, r := range t.Mmap.Regions {
 				b = le.AppendUint64(b, r.A)
 				b = le.AppendUint64(b, r.L)
@@ -590,7 +607,8 @@ func c10ToBytes(c c10Case) []byte {
 			}
 		case "elf":
 			e := t.Elf
-			b = append(b, byte(len(e.Sections)), byte(e.Shndx))
+			b = c10AppendCount(b, len(e.Sections))
+			b = append(b, byte(e.Shndx))
 			b = le.AppendUint16(b, uint16(len(e.Strtab)))
 			b = append(b, e.Strtab...)
 			for _, s := range e.Sections {
@@ -603,7 +621,7 @@ func c10ToBytes(c c10Case) []byte {
 			}
 		case "raw":
 			b = le.AppendUint32(b, t.Type)
-			b = le.AppendUint16(b, uint16(len(t.Raw)))
+			b = c10AppendCount(b, len(t.Raw))
 			b = append(b, t.Raw...)
 		}
 	}
